@@ -14,6 +14,7 @@ sees one canonical shape:
 Nothing here executes repository code; these are the classical compiler transformations (inlining, jump threading), applied to
 the MIR facts. Each pass records what it did in facts.canon_log (shown in the evidence)."""
 import copy
+import re
 import json
 import os
 
@@ -632,9 +633,11 @@ ALWAYS_INLINE = {
         "pinocchio::state::whirlpool::position::MemoryMappedPosition::reset_reward_growth_checkpoints",
         "util::swap_utils::perform_swap",
         "util::v2::swap_utils::perform_swap_v2",
+        "state::position_bundle::PositionBundle::is_valid_bundle_index",
     ],
     "orca_whirlpools_core": [
         "quote::swap::try_get_next_sqrt_price",
+        "math::tick_array::ticks",
     ],
 }
 
@@ -725,6 +728,224 @@ def inline_new_functions(facts, crate):
         if not progressed:
             break
     return log
+
+
+# ---------------------------------------------------------------------------------------------------------------------------
+# P2b: conversions used in place of field-by-field copies
+
+_CONVERSION = re.compile(r"^<.+ as (?:std|core)::convert::From<.+>>::from$")
+
+
+def inline_conversions(facts, crate):
+    """`*self = Tick::from(update)` in place of six field assignments: a crate-local `From` impl called from a function that
+    did not call it in the reference tree is spliced in at that site (the impl itself stays and keeps being checked)."""
+    ref = reference(crate)
+    if not ref:
+        return []
+    log = []
+    local = {f.path: f for f in facts.fn_list if f.kind == "fn" and _CONVERSION.match(f.path)}
+    if not local:
+        return []
+    for f in list(facts.fn_list):
+        if f.kind == "const" or f.path in local:
+            continue
+        done = False
+        for _ in range(4):
+            hit = None
+            for bi, bb in enumerate(f.rec["blocks"]):
+                tt = bb["t"]
+                if bb.get("c") or tt["k"] != "call":
+                    continue
+                g = local.get(tt["f"].get("p"))
+                if g is None or tt["t"] is None:
+                    continue
+                known = (ref["fns"].get(g.path) or {}).get("callers")
+                if known is not None and f.path in known:
+                    continue
+                if f.path not in ref["fns"] and known is not None:
+                    pass
+                hit = (bi, g)
+                break
+            if hit is None:
+                break
+            before = _reachable(f.rec)
+            inline_call(f.rec, hit[0], hit[1].rec)
+            _neutralise(f.rec, before)
+            f.refresh()
+            done = True
+            log.append("conversion %s read in place in %s" % (hit[1].path, f.path))
+        if done:
+            f.refresh()
+    return log
+
+
+def _def_sites(rec):
+    """{local: [(block, stmt index or None for a call destination)]} for projection-free definitions."""
+    defs = {}
+    for bi, bb in enumerate(rec["blocks"]):
+        for si, st in enumerate(bb["s"]):
+            if st["k"] == "=" and not st["p"].get("p"):
+                defs.setdefault(st["p"]["l"], []).append((bi, si))
+        t = bb["t"]
+        if t["k"] == "call" and not t["d"].get("p"):
+            defs.setdefault(t["d"]["l"], []).append((bi, None))
+    return defs
+
+
+def _whole_stores_fn(rec, adts):
+    """`(*p) = S { a: x, b: y }` (through any chain of single-use moves) becomes `(*p).a = x; (*p).b = y`."""
+    blocks = rec["blocks"]
+    n = 0
+    for _ in range(8):
+        defs = _def_sites(rec)
+        uses = _count_uses(rec)
+        argc = rec["argc"]
+        found = None
+        for bi, bb in enumerate(blocks):
+            if bb.get("c"):
+                continue
+            for si, st in enumerate(bb["s"]):
+                if st["k"] != "=" or not st["p"].get("p") or "use" not in st["rv"]:
+                    continue
+                if st["p"]["p"] != ["*"]:
+                    continue    # only `*self = S { .. }`: a struct stored into a field stays one store of one value
+                l = _operand_local(st["rv"]["use"])
+                chain = []
+                agg = None
+                while l is not None and l > argc:
+                    ds = defs.get(l, [])
+                    if len(ds) != 1 or ds[0][1] is None or uses.get(l, 0) != 1:
+                        break
+                    dst = blocks[ds[0][0]]["s"][ds[0][1]]
+                    rv = dst["rv"]
+                    if "agg" in rv and rv["agg"].get("k") == "adt":
+                        a = adts.get(rv["agg"]["adt"])
+                        if a is not None and a.get("kind") == "struct" and len(rv["agg"].get("fields") or []) == len(rv.get("ops") or []) and rv["agg"]["fields"]:
+                            agg = (ds[0], dst)
+                        break
+                    if "use" in rv and _operand_local(rv["use"]) is not None:
+                        chain.append(ds[0])
+                        l = _operand_local(rv["use"])
+                        continue
+                    break
+                if agg is None:
+                    continue
+                # the components are single-assignment temporaries or parameters (their values at the store are the ones
+                # the literal was built from)
+                ok = True
+                for o in agg[1]["rv"]["ops"]:
+                    ol = _operand_local(o)
+                    if ol is None:
+                        if isinstance(o, dict) and ("cp" in o or "mv" in o):
+                            ok = False
+                        continue
+                    nd = len(defs.get(ol, []))
+                    if not ((ol <= argc and nd == 0) or (ol > argc and nd == 1)):
+                        ok = False
+                if not ok:
+                    continue
+                found = (bi, si, st, agg, chain)
+                break
+            if found:
+                break
+        if not found:
+            break
+        bi, si, st, agg, chain = found
+        a = agg[1]["rv"]["agg"]
+        stores = []
+        for i, (name, o) in enumerate(zip(a["fields"], agg[1]["rv"]["ops"])):
+            stores.append({"k": "=", "p": {"l": st["p"]["l"], "p": copy.deepcopy(st["p"]["p"]) + [{"f": name, "i": i, "a": a["adt"]}]},
+                           "rv": {"use": copy.deepcopy(o)}, "l": st.get("l"), "x": st.get("x", 0)})
+        kill = {(agg[0][0], agg[0][1])} | set(chain)
+        blocks[bi]["s"][si:si + 1] = [{"k": "nop", "_ws": stores}]
+        for (b, s_) in kill:
+            blocks[b]["s"][s_] = {"k": "nop"}
+        for bb in blocks:
+            out = []
+            for x in bb["s"]:
+                if x.get("k") == "nop":
+                    out.extend(x.get("_ws", []))
+                else:
+                    out.append(x)
+            bb["s"] = out
+        n += 1
+    return n
+
+
+def scalarise_whole_stores(facts):
+    fns = []
+    for f in facts.fn_list:
+        if f.kind == "const":
+            continue
+        if _whole_stores_fn(f.rec, facts.adts):
+            f.refresh()
+            fns.append(f.path)
+    return ["whole-value store of a struct literal read as its field stores in %s" % ", ".join(sorted(fns))] if fns else []
+
+
+# ---------------------------------------------------------------------------------------------------------------------------
+# P2c: `matches!(x, V(..))`
+
+def _matches_fn(rec):
+    """A two-way switch on a discriminant whose arms only set one bool local to true / false and join is the comparison
+    `b = discriminant(x) == K` (or `!= K`): the shape `matches!(x, V(..))` and `if let V(..) = x { true } else { false }` lower to."""
+    blocks = rec["blocks"]
+    preds = {}
+    for i, bb in enumerate(blocks):
+        tt = bb["t"]
+        k = tt["k"]
+        nx = [tt["t"]] if k == "goto" else ([x for _, x in tt["ts"]] + [tt["o"]]) if k == "switch" else \
+            ([tt["t"]] if tt.get("t") is not None else []) + ([tt["u"]] if isinstance(tt.get("u"), int) and tt["u"] >= 0 else []) if k in ("call", "drop", "assert") else []
+        for x in nx:
+            preds.setdefault(x, []).append(i)
+    n = 0
+    for si_, S in enumerate(blocks):
+        t = S["t"]
+        if t["k"] != "switch" or S.get("c") or t.get("dt") == "bool" or len(t["ts"]) != 1 or not S["s"]:
+            continue
+        d = _operand_local(t["d"])
+        last = S["s"][-1]
+        if d is None or last.get("k") != "=" or last["p"] != {"l": d} or "discr" not in last["rv"]:
+            continue
+        kval, A_, B_ = t["ts"][0][0], t["ts"][0][1], t["o"]
+        if A_ == B_:
+            continue
+        arms = []
+        for x in (A_, B_):
+            X = blocks[x]
+            if X.get("c") or preds.get(x) != [si_] or len(X["s"]) != 1 or X["t"]["k"] != "goto":
+                arms = None
+                break
+            st = X["s"][0]
+            c = (st.get("rv") or {}).get("use") if st.get("k") == "=" else None
+            if not (isinstance(c, dict) and isinstance(c.get("k"), dict) and c["k"].get("ty") == "bool" and c["k"].get("v") in ("0", "1")) or st["p"].get("p"):
+                arms = None
+                break
+            arms.append((st["p"]["l"], c["k"]["v"] == "1", X["t"]["t"]))
+        if not arms or arms[0][0] != arms[1][0] or arms[0][2] != arms[1][2] or arms[0][1] == arms[1][1]:
+            continue
+        b, join = arms[0][0], arms[0][2]
+        if rec["locals"][b]["t"] != "bool":
+            continue
+        op = "Eq" if arms[0][1] else "Ne"
+        S["s"].append({"k": "=", "p": {"l": b}, "rv": {"bin": op, "a": copy.deepcopy(t["d"]), "b": {"k": {"ty": t.get("dt") or "isize", "v": kval}}},
+                       "l": blocks[A_]["s"][0].get("l"), "x": 0})
+        S["t"] = {"k": "goto", "t": join}
+        for x in (A_, B_):
+            blocks[x] = {"s": [], "t": {"k": "unreachable"}, "c": 1, "dead": 1}
+        n += 1
+    return n
+
+
+def recognise_matches(facts):
+    fns = []
+    for f in facts.fn_list:
+        if f.kind == "const":
+            continue
+        if _matches_fn(f.rec):
+            f.refresh()
+            fns.append(f.path)
+    return ["read %d variant test(s) written as matches!(..) as discriminant comparisons" % len(fns)] if fns else []
 
 
 # ---------------------------------------------------------------------------------------------------------------------------
